@@ -197,6 +197,42 @@ def einsum_progs(theme="real"):
     return out
 
 
+def constant_progs(theme="real"):
+    """Constant(const_inputs, arg): reductions over constant and ordinary inputs together, binary ops between
+    Constants / tensors sharing and not sharing the constant inputs, unary ops, substitution of a constant input"""
+    import itertools
+    c = THEMES[theme]["carrier"]
+    x = _leaf("cx", ("i", "j"), (), c)
+    y = _leaf("cy2", ("j", "k"), (), c)
+    s_ = _leaf("cs", (), (), c)
+    out = []
+    for cin in ((("cz", 2),), (("cz", 2), ("cw", 3))):
+        for e in (x, s_):
+            k = constant(cin, e)
+            names = list(cin) + [(n, SIZES[n]) for n, _ in type_of(e)[0].items()]
+            for op in ("add", "mul", "logaddexp"):
+                if op == "logaddexp" and theme != "log":
+                    continue
+                if op != "logaddexp" and theme == "log":
+                    continue
+                for r in range(1, len(names) + 1):
+                    for red in itertools.combinations(names, r):
+                        out.append(reduce_(op, k, red))
+            for op in ("max", "min"):
+                out.append(reduce_(op, k, (cin[0],)))
+            out.append(unary("exp" if theme != "log" else "neg", k))
+            for op in ("add", "mul", "sub"):
+                out.append(_bin(op, k, y))
+                out.append(_bin(op, y, k))
+                out.append(_bin(op, k, constant((("cz", 2), ("cv", 2)), y)))
+                out.append(_bin(op, k, leaf("cq", (("cz", 2),), (), c)))       # the other operand HAS the constant input
+                out.append(_bin(op, leaf("cq2", (("cz", 2), ("i", 2)), (), c), k))
+            out.append(subs(k, (("cz", num(1, 2)),)))
+            out.append(subs(k, (("cz", var("i", ("bint", 2))),)))
+            out.append(reduce_("add" if theme != "log" else "logaddexp", _bin("add", k, y), (("cz", 2), ("j", 3))))
+    return [e for e in out if e is not None and well_typed(e)]
+
+
 def independent_progs():
     f = leaf("fi", (("i", 2),), (), "real")
     x = var("xd", ("real", ()))
